@@ -7,8 +7,8 @@ import stone.backend as sb
 import stone.backends.swift as sw
 from vlib import hx
 
-ROOT = '/out/root'
-MAXLEN = hx.tier(4, 6)
+ROOT = '/r/a'          # a root whose last segment lies in the path alphabet: siblings such as ../aa share its prefix
+MAXLEN = hx.tier(5, 6)
 
 
 class Recorder:
@@ -141,6 +141,8 @@ def _check(call, target, manifest):
     """target: the path the entry point is asked to write (as the documents describe it)"""
     REC.ops = []
     where = classify(target)
+    if where == 'root':
+        return True              # the output folder itself as a file target: not addressed by the statement
     refused = False
     try:
         call()
@@ -160,11 +162,12 @@ def _check(call, target, manifest):
 
 
 _PRE = 'rel over the alphabet {., /, a} (segments a, ., .., ..., ..a, empty, leading /), len(rel) == item'
-LENS = [str(n) for n in range(0, MAXLEN + 1)]
+LENS = [str(n) for n in range(1, MAXLEN + 1)]
+COPY_ITEMS = ['%dd' % n for n in range(0, MAXLEN)] + ['%df' % n for n in range(1, MAXLEN)]
 _T1 = ['stone.backend:_relative_output_path', 'stone.backend:Backend.output_to_relative_path']
 
 
-@hx.harness(props=['C18'], targets=_T1, items=LENS, bound=_PRE, budget=(120, 900),
+@hx.harness(props=['C18'], targets=_T1, items=LENS, bound=_PRE, budget=(300, 900),
             glue=['install_normpath'], outside=['unicode / other characters in paths', 'symlinks (no file system)'])
 def contain_output(rel: str, use_manifest: bool, exists: bool) -> bool:
     """
@@ -183,9 +186,9 @@ def contain_output(rel: str, use_manifest: bool, exists: bool) -> bool:
 
 
 @hx.harness(props=['C18'], targets=['stone.backend:_relative_output_path', 'stone.backend:Backend.copy_to_path'],
-            items=[n + k for n in LENS for k in 'df'],
+            items=COPY_ITEMS,
             bound=_PRE + '; destination = root/rel; destination is a directory (d) / is not (f)',
-            budget=(120, 900), glue=['install_normpath'])
+            budget=(300, 900), glue=['install_normpath'])
 def contain_copy(rel: str, use_manifest: bool) -> bool:
     """
     pre: len(rel) == int(ITEM[:-1])
@@ -203,6 +206,8 @@ def contain_copy(rel: str, use_manifest: bool) -> bool:
         b.copy_to_path('/somewhere/src.txt', dst)
     REC.ops = []
     where = classify(target)
+    if where == 'root':
+        return True              # the output folder itself as a file target: not addressed by the statement
     refused = False
     try:
         call()
@@ -221,7 +226,7 @@ def contain_copy(rel: str, use_manifest: bool) -> bool:
 
 @hx.harness(props=['C18'], targets=['stone.backend:_relative_output_path',
                                     'stone.backends.swift:SwiftBaseBackend._write_output_in_target_folder'],
-            items=LENS, bound=_PRE + ' (file name given to the Swift writer)', budget=(120, 900),
+            items=LENS, bound=_PRE + ' (file name given to the Swift writer)', budget=(300, 900),
             glue=['install_normpath'])
 def contain_swift(rel: str, use_manifest: bool, exists: bool) -> bool:
     """
